@@ -67,6 +67,18 @@ _coerce_scheme_options = dict(
     version=int,
     block_size=int,
     parallelism=int,
+    # argon2
+    memory_cost=int,
+    time_cost=int,
+    max_threads=int,
+    digest_size=int,
+    checksum_size=int,
+    hash_len=int,
+    salt_len=int,
+    # alternate names accepted by HasRounds.using() / HasSalt.using()
+    min_desired_rounds=int,
+    max_desired_rounds=int,
+    default_salt_size=int,
 )
 
 
